@@ -703,3 +703,31 @@ Qed.
 Theorem distances_nondecreasing (xs : list V3R) : nondecreasing_from 0 (@cumsum R _ 0 (@step_lengths R _ xs)).
 Proof. apply cumsum_nondecreasing, step_lengths_nonneg. Qed.
 End Derived.
+
+
+(* ---------- the position map of a projection is linear and a contraction: no step gets longer, so accumulated
+   distances and the path length never grow under projection ---------- *)
+Lemma proj_pos_vsub pl (a b : V3R) : vsub (@proj_pos R _ pl a) (proj_pos pl b) = proj_pos pl (vsub a b).
+Proof. destruct pl, a, b; cbn [proj_pos]; v3eq. Qed.
+Lemma nrm2_proj_pos_le pl (v : V3R) : nrm2 (@proj_pos R _ pl v) <= nrm2 v.
+Proof. destruct pl, v as [x y z]; cbn [proj_pos]; lin_unfold; rnum; nra. Qed.
+Theorem proj_pos_contraction pl (a b : V3R) :
+  norm (vsub (@proj_pos R _ pl a) (proj_pos pl b)) <= norm (vsub a b).
+Proof. rewrite proj_pos_vsub. unfold norm. rnum. apply sqrt_le_1_alt, nrm2_proj_pos_le. Qed.
+Theorem step_lengths_projection_le pl (xs : list V3R) :
+  Forall2 Rle (@step_lengths R _ (map (proj_pos pl) xs)) (@step_lengths R _ xs).
+Proof.
+  induction xs as [|a [|b xs] IH]; [constructor|constructor|].
+  change (Forall2 Rle (norm (vsub (@proj_pos R _ pl a) (proj_pos pl b)) :: @step_lengths R _ (map (proj_pos pl) (b :: xs)))
+                      (norm (vsub a b) :: @step_lengths R _ (b :: xs))).
+  constructor; [apply proj_pos_contraction|exact IH].
+Qed.
+Lemma fold_add_le (l l' : list R) : Forall2 Rle l l' -> forall a a', a <= a' -> fold_left Rplus l a <= fold_left Rplus l' a'.
+Proof. induction 1 as [|x y l l' Hxy _ IH]; intros a a' Ha; cbn [fold_left]; [exact Ha|]. apply IH. lra. Qed.
+Theorem path_length_projection_le pl (xs : list V3R) :
+  @path_length R _ (map (proj_pos pl) xs) <= @path_length R _ xs.
+Proof. unfold path_length. rnum. apply fold_add_le; [apply step_lengths_projection_le|lra]. Qed.
+(* and a trajectory that already lies in the plane keeps every position *)
+Theorem proj_pos_fixes_in_plane pl (v : V3R) :
+  match pl with XY => vz v = 0 | XZ => vy v = 0 | YZ => vx v = 0 end -> @proj_pos R _ pl v = v.
+Proof. destruct pl, v as [x y z]; cbn [proj_pos vx vy vz]; intros ->; reflexivity. Qed.
